@@ -57,13 +57,13 @@ func vfDirectionRun(res *vrt.Result, part string) (evals, nontrivial int64) {
 	}
 	defer cl.Close()
 	type side struct {
-		name            string
-		conn            *grpc.ClientConn
-		backend         *vfBackend
-		callerNS, beNS  string
-		callerSA, beSA  string
-		reqNS, respNS   map[string]string
-		reqSA, respSA   map[string]string
+		name           string
+		conn           *grpc.ClientConn
+		backend        *vfBackend
+		callerNS, beNS string
+		callerSA, beSA string
+		reqNS, respNS  map[string]string
+		reqSA, respSA  map[string]string
 	}
 	sides := []side{
 		{"inbound (remote caller -> local cluster)", cl.FromRemote, cl.Local, vfWRemoteNS, vfWLocalNS, "remote", "local",
@@ -412,7 +412,7 @@ func TestVerifC16Wiring(t *testing.T) {
 	bypass := metadata.Pairs(common.RequestTranslationHeaderName, "false")
 	// remote name "remote-ok" -> local "allowed-ns"; "remote-bad" -> local "forbidden-ns"; allow-list is in local names
 	cfg := config.ClusterConnConfig{
-		ACLPolicy: &config.ACLPolicy{AllowedNamespaces: []string{"allowed-ns", "plain-allowed"}},
+		ACLPolicy:            &config.ACLPolicy{AllowedNamespaces: []string{"allowed-ns", "plain-allowed"}},
 		NamespaceTranslation: config.StringTranslator{Mappings: []config.StringMapping{{Local: "allowed-ns", Remote: "remote-ok"}, {Local: "forbidden-ns", Remote: "remote-bad"}}},
 	}
 	cl, err := vfStartCluster(cfg)
